@@ -231,6 +231,8 @@ static void load_cfg_once(void) {
                 struct rule *ru = &rules[nrules];
                 memset(ru, 0, sizeof *ru);
                 int n = sscanf(line, "%15s %255s %ld %15s %ld %ld", ru->op, ru->suffix, &ru->occurrence, ru->action, &ru->a1, &ru->a2);
+                for (char *c = ru->suffix; *c; c++)
+                    if (*c == '\x01') *c = ' '; /* blanks in paths are written as 0x01 in the plan file */
                 if (n >= 4 && ru->op[0] != '#') {
                     if (!strcmp(ru->action, "eintr")) ru->eintr_left = ru->a1;
                     nrules++;
